@@ -26,6 +26,7 @@ type boundedSpec struct {
 
 var boundedByProp = map[string][]boundedSpec{
 	"C11": {{"c11_bounded_test.go", "TestBoundedC11"}, {"c11path_bounded_test.go", "TestBoundedC11Path"}, {"c11params_bounded_test.go", "TestBoundedC11Params"}},
+	"C13": {{"c13_bounded_test.go", "TestBoundedC13"}},
 	"C14": {{"c14_bounded_test.go", "TestBoundedC14"}},
 	"C16": {{"c16_bounded_test.go", "TestBoundedC16"}},
 	"C17": {{"c17_bounded_test.go", "TestBoundedC17"}},
